@@ -3,6 +3,7 @@ from ..runner import Case
 from .. import gen, core
 
 ID = "C03"
+STATEFUL = True     # some blocks keep a live object across lines
 LEAN_TARGETS = ["Cider.Props.C03", "Cider.Props.C02Tie"]
 P = "Cider.C03."
 THEOREMS = ["Cider.C02.gen_charge_eq_published"] + [P + t for t in (
@@ -48,6 +49,22 @@ def cases(rng, tier):
     for a, b in ((3, 3), (4, 3), (3, 4), (10, 10), (11, 10), (1, 12), (12, 1)):
         s = gen.spell(gen.arrange((a, b, 0), rng), rng)
         yield Case(block(s), {"kind": "boundary-noneut"})
+    # no neutral residues: every majority size with every small minority, both signs (the sliding-block search of that regime)
+    amax, bmax = (60, 8) if tier == "quick" else (120, 12)
+    for a in range(1, amax + 1):
+        for b in range(1, min(a, bmax) + 1):
+            for comp in ((a, b, 0), (b, a, 0)):
+                if a + b > N:
+                    yield Case(block(gen.spell(gen.arrange(comp, rng), rng)), {"kind": "noneut-lopsided"})
+    # the tuple form asked AFTER a scalar query on the same object (the cache is then warm): every composition
+    M = 10 if tier == "quick" else 14
+    for comp in gen.compositions(M):
+        if comp[0] + comp[1] == 0 and sum(comp) > 3:
+            continue
+        s = gen.spell(gen.arrange(comp, rng), rng)
+        first = rng.choice(["dmax", "kappa"])
+        yield Case(["new 0 " + s, "o 0 " + first, "o 0 dmaxperm", "o 0 dmax"], {"kind": "warm-cache-then-permutant", "seq": s},
+                   nontrivial=(comp[0] + comp[1] > 0 and sum(comp) >= 6))
     for kind, s in gen.rand_seqs(rng, 60 if tier == "quick" else 600, 300):
         yield Case(block(s), {"kind": kind}, nontrivial=len(s) >= 6 and any(c in "KRDE" for c in s))
 
@@ -55,14 +72,16 @@ def cases(rng, tier):
 def judge(case, reals, gens, specs):
     out = []
     for i, (r, g, s) in enumerate(zip(reals, gens, specs)):
-        if not case.block[i].startswith("q dmaxperm"):
+        if case.block[i].startswith("new "):
+            continue
+        if not case.block[i].startswith(("q dmaxperm", "o 0 dmaxperm")):
             ok_s, _ = core.match(r, s)
             if not ok_s:
                 out.append(("violation", i, "real=%r spec=%s" % (r, s)))
             elif not core.match(r, g)[0]:
                 out.append(("tie", i, "real=%r model@gen=%s" % (r, g)))
             continue
-        seq = case.block[i].split(" ")[2]
+        seq = case.block[i].split(" ")[2] if case.block[i].startswith("q ") else case.block[0].split(" ")[2]
         if r[0] != "perm":
             out.append(("violation", i, "get_deltaMax(True) -> %r" % (r,)))
             continue
